@@ -11,7 +11,10 @@ Source modelled: `cla/dr_results.py`
 * `DR_Results.psd_data_recovery`: `_calc_rms` (`sqrt((df * (p[:-1] + p[1:])).sum() / 2)`), the
   "velocity" rms on `freq**2 * psd`, `pk = peak_factor * rms`, `pk_freq = vrms / rms`,
   `mm.ext = [pk, -pk]`, `mm.ext_x = [pk_freq, pk_freq]`, then `extrema` / `_store_maxmin`
-  (the SRS-of-PSD part, `srs.vrs`, is out of scope).
+  (`_compute_srs(res, dr, psd, "psd", freq, j, first, pf=pf)`: `fact = srsconv * pf`, `/ Q` for
+  `eqsine`, times `srs.vrs((freq, psd[srspv].T), freq, Q, Fn=srsfrq, linear=True)`; the spectrum
+  itself is C03's model `Srs.vrsOne`, which the driver runs at `Float`; the envelope over the cases is
+  `np.fmax`, `Extrema.srsEnv`).
 
 One row of one category; polymorphic over the scalar type: theorems at a field with a square-root
 function (`Props/C16Psd.lean`), the driver runs the numeric part at `Float` and the compare-and-move
@@ -82,6 +85,22 @@ def psdRow (cases : List (L × Option α × X)) :
     (some (upd2 st.1 (hi, negTr hi)), st.2 ++ [(hi, negTr hi)])) (none, [])
 
 end pipeline
+
+section srs
+variable {α : Type} [Mul α] [Div α]
+
+/-- `_compute_srs`, `respname == "psd"`: one value of `srs_cur` from the vibration response spectrum
+value `vrs`: `fact = dr.srsconv`, `fact *= pf`, `fact /= q` for `eqsine`, `srs_cur = fact * vrs` -/
+def psdSrsCase (conv pf q : α) (eqsine : Bool) (vrs : α) : α :=
+  (if eqsine then conv * pf / q else conv * pf) * vrs
+
+end srs
+
+/-- `res.srs.ext[q]` at one (SRS row, oscillator frequency) after the cases in call order; `spec c`
+is the value of `srs_cur` for case `c` (`none` = NaN); the outer `none` = no case recovered yet -/
+def psdSrsEnv {α P : Type} [LT α] [DecidableLT α] (spec : P → Option α) : List P → Option (Option α)
+  | [] => none
+  | c :: cs => some (srsEnv (spec c) (cs.map spec))
 
 /-- `solvepsd`'s frequency bookkeeping: the first case stores `freq`, a later case must bring the
 same vector (`np.allclose`; the harness only sends identical or clearly different vectors);
